@@ -379,8 +379,13 @@ fn evaluate(form: Form, items: &[Item], outs: &[Out], o: &mut Outcome, known_has
   let mut delivered: BTreeMap<(usize, i64), usize> = BTreeMap::new();
   let mut last: BTreeMap<usize, i64> = BTreeMap::new();
   for x in outs {
-    if let Out::Sample(w, sn, _) = x {
+    if let Out::Sample(w, sn, is_dispose) = x {
       *delivered.entry((*w, *sn)).or_insert(0) += 1;
+      // the bare forms return no sample info: a dispose is attributed to the first unreported
+      // dispose of that key, which may be another writer's - no order claim can be made for it
+      if *is_dispose && matches!(form, Form::IntoIterator | Form::BareStream) {
+        continue;
+      }
       if let Some(p) = last.get(w) {
         if *sn <= *p && reliable {
           o.violate("c09.order", &format!("{form:?}"), format!("writer {w}: sn {sn} delivered after sn {p}"));
